@@ -313,6 +313,16 @@ func buildLabBatch(args map[string]string, dirName string, withFaults bool) (*la
 		return nil, err
 	}
 	b.t["build"] = time.Since(t1)
+	if args["ext"] == "1" {
+		// second stage: another extension, Build() again
+		lab.AddGoExt("stage2", map[string]string{"s.go": "package stage2\n\nimport \"" + labGoModule + "/labrt\"\n\nfunc init() { labrt.Register(\"*\", \"*\", \"stage2\", func(p []string) string { return \"ok stage2\" }) }\n"})
+		t2 := time.Now()
+		if err := lab.Build(); err != nil {
+			lab.Close()
+			return nil, err
+		}
+		b.t["rebuild"] = time.Since(t2)
+	}
 	return b, nil
 }
 
@@ -520,7 +530,8 @@ func init() {
 			fmt.Fprintf(out, "WARNING %s\n", w)
 		}
 		if args["ext"] == "1" {
-			fmt.Fprintf(out, "EXT pingext err=%q brokenext err=%q\n", b.lab.GoExtErr("pingext"), labFirstLine(b.lab.GoExtErr("brokenext")))
+			rep := b.lab.GoCall([]LabReq{{"*", "*", "stage2", nil}})
+			fmt.Fprintf(out, "EXT pingext err=%q brokenext err=%q stage2 reply=%q rebuild=%.1fs\n", b.lab.GoExtErr("pingext"), labFirstLine(b.lab.GoExtErr("brokenext")), rep[0], b.t["rebuild"].Seconds())
 		}
 		fmt.Fprintf(out, "TIMING generate+docs=%.1fs build(write+go build+py import)=%.1fs [lab: %v] gocall=%.1fs pycall=%.1fs total=%.1fs\n",
 			b.t["generate+docs"].Seconds(), b.t["build"].Seconds(), fmtTimings(b.lab.Timings), tg.Seconds(), tp.Seconds(), time.Since(t0).Seconds())
